@@ -97,3 +97,23 @@ package conn
 //@   modifies ch.sending
 //@   ensures [messageInFlightIsKept] old(ch.sending) != nil ==> r && ch.sending == old(ch.sending)
 //@   ensures [pendingMeansAMessageInFlight] r <==> ch.sending != nil
+
+// Defaults fill in only what was left at zero: a capacity the reactor configured is kept (it is the limit
+// recvPacketMsg refuses oversized messages by).
+//@ func (chDesc ChannelDescriptor) FillDefaults() (filled ChannelDescriptor)
+//@   for C20 C18
+//@   modifies nothing
+//@   ensures [configuredCapacitiesKept] (chDesc.RecvMessageCapacity != 0 ==> filled.RecvMessageCapacity == chDesc.RecvMessageCapacity) && (chDesc.RecvBufferCapacity != 0 ==> filled.RecvBufferCapacity == chDesc.RecvBufferCapacity) && (chDesc.SendQueueCapacity != 0 ==> filled.SendQueueCapacity == chDesc.SendQueueCapacity)
+//@   ensures [zeroGetsTheDefault] (chDesc.RecvMessageCapacity == 0 ==> filled.RecvMessageCapacity == defaultRecvMessageCapacity) && filled.ID == chDesc.ID && filled.Priority == chDesc.Priority
+
+// A batch reports "channels exhausted" only if one of its packets found nothing left to send: after a
+// full batch there may be more, and the send routine must come back (otherwise the rest of a long
+// message waits for unrelated traffic, or is cut off by FlushStop).
+//@ func (c *MConnection) sendSomePacketMsgs() (r bool)
+//@   for C20
+//@   requires c != nil && c.sendMonitor != nil
+//@   modifies *
+//@   opt assumecallreqs
+//@   ensures [exhaustedOnlyIfAPacketSaidSo] r ==> called(MConnection.sendPacketMsg) && result(MConnection.sendPacketMsg)
+//@   loop 1:
+//@     invariant 0 <= i
